@@ -8,7 +8,8 @@ open Py Inline
 
 /-- what is done to an element taken out of the stash keeps its expanded text -/
 def NestedSpec (L : Char → Bool) (n : Nat) (tbl : List Str) (nested : Node → Option Node) : Prop :=
-  ∀ nd nd', nodeOk L n nd = true → nd.tail = none → kidsNonAtomic nd.children = true → nested nd = some nd' →
+  ∀ nd nd', nodeOk L n nd = true → nd.tail = none → nd.attrs = [] → kidsNonAtomic nd.children = true →
+    nested nd = some nd' →
     nodeFlat tbl nd' = nodeFlat tbl nd ∧ nd'.tail = none ∧ nodeOk L n nd' = true ∧
       ok L 0 (nd'.text.getD []) = true ∧ atomOk L nd' = true
 
@@ -140,17 +141,17 @@ theorem ppLoop_spec (hs : stashOk L stash = true) (hn : NestedSpec L stash.lengt
         have htail : nd.tail = none := by
           cases ht : nd.tail with
           | none => rfl
-          | some x => have := hitem.1.2; rw [ht] at this; simp at this
-        have hndok : nodeOk L stash.length nd = true := nodeOk_mono (Nat.le_of_lt hlt) _ hitem.1.1
+          | some x => have := hitem.1.1.2; rw [ht] at this; simp at this
+        have hndok : nodeOk L stash.length nd = true := nodeOk_mono (Nat.le_of_lt hlt) _ hitem.1.1.1
         split at h
         · simp at h
         · rename_i nd' hnest
-          obtain ⟨hnf, hnt, hnok, hntext, hnatom⟩ := hn nd nd' hndok htail hitem.2 hnest
+          obtain ⟨hnf, hnt, hnok, hntext, hnatom⟩ := hn nd nd' hndok htail (by simpa using hitem.1.2) hitem.2 hnest
           have hstable : nodeFlat (table stash) nd = nodeFlat (table (stash.take (decToNat id))) nd := by
             have hlen : (stash.take (decToNat id)).length = decToNat id := by
               rw [List.length_take]; omega
             have := nodeFlat_table_ext (L := L) (stash := stash.take (decToNat id)) (n := nd)
-              (by rw [hlen]; exact hitem.1.1) (stash.drop (decToNat id))
+              (by rw [hlen]; exact hitem.1.1.1) (stash.drop (decToNat id))
             rw [List.take_append_drop] at this
             exact this
           refine ih _ _ _ (A ++ (data.drop start).take off ++ nodeFlat (table stash) nd) _ _ ?_ ?_ h
